@@ -7,6 +7,7 @@ import (
 	"math"
 	"sort"
 	"strings"
+	"time"
 
 	"github.com/orbs-network/lean-helix-go/spec/types/go/primitives"
 	"github.com/orbs-network/lean-helix-go/state"
@@ -103,6 +104,7 @@ func cmdVctx(args []string) int {
 	fs.Parse(args)
 	rnd := newRand(*seed)
 	out := newNdjson(*outPath)
+	out.watchdog(30*time.Second, func() obj { return obj{"op": "hang", "h": 0, "v": 0, "res": "hang", "obs": [][]interface{}{}} })
 	defer out.close()
 
 	if *replay != "" { // a recorded path: re-execute the same calls on a fresh registry
